@@ -3,8 +3,9 @@
 // stand-ins for external crates and assumed contracts for std functions.
 // (generated file: do not edit; see /verif/specs/prelude.rs)
 // ===========================================================================
+#![verifier::allow(undeclared_external_trait)]
 #![allow(unused_imports, dead_code, unused_variables, unused_mut, unused_parens, unused_braces, non_snake_case, unreachable_code, unused_assignments)]
-#![feature(sized_hierarchy, allocator_api)]
+#![feature(sized_hierarchy, allocator_api, const_destruct)]
 use vstd::prelude::*;
 use vstd::std_specs::cmp::*;
 
@@ -22,9 +23,30 @@ pub fn vpanic()
     panic!()
 }
 
+/// PHYSICAL BOUND (assumption, used at named call sites only): no in-memory buffer holds 2^60 elements.
+pub axiom fn axiom_physical_vec<T>(v: &Vec<T>)
+    ensures v@.len() < 0x1000_0000_0000_0000;
+pub axiom fn axiom_physical_slice<T>(s: &[T])
+    ensures s@.len() < 0x1000_0000_0000_0000;
+
 pub assume_specification<T> [<[T]>::to_vec] (s: &[T]) -> (r: Vec<T>)
     where T: Clone,
     ensures r@ == s@;
+
+pub assume_specification<T: core::cmp::Ord + core::marker::Destruct> [core::cmp::max::<T>] (a: T, b: T) -> (r: T)
+    ensures
+        vstd::std_specs::cmp::OrdSpec::cmp_spec(&a, &b) == core::cmp::Ordering::Greater ==> r == a,
+        vstd::std_specs::cmp::OrdSpec::cmp_spec(&a, &b) != core::cmp::Ordering::Greater ==> r == b;
+
+pub assume_specification<T> [core::mem::drop::<T>] (x: T);
+
+pub assume_specification<T> [<[T]>::split_last_mut] (s: &mut [T]) -> (r: Option<(&mut T, &mut [T])>)
+    ensures
+        match r {
+            None => old(s)@.len() == 0 && final(s)@ == old(s)@,
+            Some((last, head)) => old(s)@.len() > 0 && *last == old(s)@.last() && head@ == old(s)@.drop_last()
+                && final(s)@ == final(head)@.push(*final(last)),
+        };
 
 // --- [u8] comparison is lexicographic byte order (std documentation) ---
 pub broadcast axiom fn axiom_slice_u8_ord(a: &[u8], b: &[u8])
@@ -94,6 +116,9 @@ pub uninterp spec fn sink_bytes<W: ?Sized>(w: &W) -> Seq<u8>;
 pub uninterp spec fn sink_wf<W: ?Sized>(w: &W) -> bool;
 /// number of successful flush calls that left nothing buffered: the sink is flushed iff flushed_len == |sink_bytes|
 pub uninterp spec fn sink_flushed_len<W: ?Sized>(w: &W) -> int;
+/// a ghost attribute of a sink that no write/flush changes (for the counting wrapper: the length of the
+/// inner log when the wrapper was created)
+pub uninterp spec fn sink_base<W: ?Sized>(w: &W) -> int;
 /// content of a source (never changes), current position, and whether it is a plain in-memory style source
 /// that fails only when asked for bytes beyond its end
 pub uninterp spec fn rd_bytes<R: ?Sized>(r: &R) -> Seq<u8>;
@@ -101,6 +126,10 @@ pub uninterp spec fn rd_pos<R: ?Sized>(r: &R) -> int;
 pub uninterp spec fn rd_reliable<R: ?Sized>(r: &R) -> bool;
 /// number of block loads (one per length-prefixed block read) performed on this source (C16 ghost counter)
 pub uninterp spec fn rd_loads<R: ?Sized>(r: &R) -> int;
+
+/// std: `impl Write for Vec<u8>` appends and never fails; the log of such a sink is its content (convention)
+pub broadcast axiom fn axiom_vec_sink(v: &Vec<u8>)
+    ensures #[trigger] sink_wf(v), #[trigger] sink_bytes(v) == v@;
 
 /// physical bound: no sink ever accepted 2^62 bytes (used only to discharge counter overflow)
 pub axiom fn axiom_sink_physical<W: ?Sized>(w: &W)
@@ -113,20 +142,20 @@ pub trait ExWrite {
     fn write(&mut self, buf: &[u8]) -> (r: io::Result<usize>)
         requires sink_wf(old(self)),
         ensures
-            sink_wf(final(self)),
+            sink_wf(final(self)), sink_base(final(self)) == sink_base(old(self)),
             match r {
                 Ok(n) => n <= buf@.len() && sink_bytes(final(self)) == sink_bytes(old(self)) + buf@.subrange(0, n as int),
                 Err(_) => sink_bytes(final(self)) == sink_bytes(old(self)),
             };
     fn flush(&mut self) -> (r: io::Result<()>)
         requires sink_wf(old(self)),
-        ensures sink_wf(final(self)), sink_bytes(final(self)) == sink_bytes(old(self)),
+        ensures sink_wf(final(self)), sink_bytes(final(self)) == sink_bytes(old(self)), sink_base(final(self)) == sink_base(old(self)),
             r is Ok ==> sink_flushed_len(final(self)) == sink_bytes(final(self)).len();
     /// std default loop: on Ok exactly buf was accepted, whatever the split / however many Interrupted;
     /// on Err some prefix of buf was accepted
     fn write_all(&mut self, buf: &[u8]) -> (r: io::Result<()>)
         requires sink_wf(old(self)),
-        ensures sink_wf(final(self)),
+        ensures sink_wf(final(self)), sink_base(final(self)) == sink_base(old(self)),
             r is Ok ==> sink_bytes(final(self)) == sink_bytes(old(self)) + buf@,
             r is Err ==> exists|n: int| 0 <= n <= buf@.len() && sink_bytes(final(self)) == sink_bytes(old(self)) + buf@.subrange(0, n);
 }
@@ -184,19 +213,19 @@ pub trait WriteBytesExt: io::Write {
     #[verifier::external_body]
     fn write_u8(&mut self, n: u8) -> (r: io::Result<()>)
         requires sink_wf(old(self)),
-        ensures sink_wf(final(self)), r is Ok ==> sink_bytes(final(self)) == sink_bytes(old(self)) + seq![n],
+        ensures sink_wf(final(self)), sink_base(final(self)) == sink_base(old(self)), r is Ok ==> sink_bytes(final(self)) == sink_bytes(old(self)) + seq![n],
             r is Err ==> exists|k: int| 0 <= k <= 1 && sink_bytes(final(self)) == sink_bytes(old(self)) + seq![n].subrange(0, k),
     { unimplemented!() }
     #[verifier::external_body]
     fn write_u32<E: ByteOrder>(&mut self, n: u32) -> (r: io::Result<()>)
         requires sink_wf(old(self)),
-        ensures sink_wf(final(self)), r is Ok ==> sink_bytes(final(self)) == sink_bytes(old(self)) + enc::<E>(n as nat, 4),
+        ensures sink_wf(final(self)), sink_base(final(self)) == sink_base(old(self)), r is Ok ==> sink_bytes(final(self)) == sink_bytes(old(self)) + enc::<E>(n as nat, 4),
             r is Err ==> exists|k: int| 0 <= k <= 4 && sink_bytes(final(self)) == sink_bytes(old(self)) + enc::<E>(n as nat, 4).subrange(0, k),
     { unimplemented!() }
     #[verifier::external_body]
     fn write_u64<E: ByteOrder>(&mut self, n: u64) -> (r: io::Result<()>)
         requires sink_wf(old(self)),
-        ensures sink_wf(final(self)), r is Ok ==> sink_bytes(final(self)) == sink_bytes(old(self)) + enc::<E>(n as nat, 8),
+        ensures sink_wf(final(self)), sink_base(final(self)) == sink_base(old(self)), r is Ok ==> sink_bytes(final(self)) == sink_bytes(old(self)) + enc::<E>(n as nat, 8),
             r is Err ==> exists|k: int| 0 <= k <= 8 && sink_bytes(final(self)) == sink_bytes(old(self)) + enc::<E>(n as nat, 8).subrange(0, k),
     { unimplemented!() }
 }
